@@ -102,10 +102,18 @@ CANARIES = {
     'C16': [
         C('relaxed skips the default-strategy shortcut', "    if rec_success:\n        return rec_rgb, True\n", "    if False:\n        return rec_rgb, True\n", '_strategy_relaxed', 'covers_mode1'),
         C('mode dispatch swapped', "    elif mode == 2:\n        tuned_rgb, success = _strategy_relaxed(", "    elif mode == 1:\n        tuned_rgb, success = _strategy_relaxed(", 'check_and_fix_contrast', 'mode1_is_rec'),
+        # relational canaries (clause 2): each keeps every unary contract of the function true
+        C('rel: early stop when BELOW the minimum', "            and best_contrast >= min_contrast\n", "            and best_contrast < min_contrast\n", 'generate_accessible_color~rel', 'hi_never_ahead'),
+        C('rel: early stop for AA-level minimum whatever the contrast', "            and best_contrast >= min_contrast\n", "            and min_contrast <= 4.5\n", 'generate_accessible_color~rel', 'lo_returns_first'),
+        C('rel: fewer default-mode steps for the ordinary request', "    max_iterations = 10\n", "    max_iterations = 10 if min_contrast >= 7.0 else 3\n", '_strategy_recursive~rel', 'same_iterable'),
+        C('rel: relaxed option B only for AAA requests', "    opt_b_success = calculate_contrast_ratio(opt_b_rgb, bg_rgb) >= min_contrast\n", "    opt_b_success = calculate_contrast_ratio(opt_b_rgb, bg_rgb) >= min_contrast and min_contrast >= 7.0\n", '_strategy_relaxed~rel', 'very_readable_implies_readable'),
+        C('rel: ordinary request aims only at its own minimum', "            target_contrast = (\n                7.0  # Aim a bit higher (AAA) if possible, but AA is the floor\n            )", "            target_contrast = (\n                4.5\n            )", 'check_and_fix_contrast~rel', 'very_readable_implies_readable'),
     ],
 }
 # a harmless edit that must NOT raise an alarm (checked like a canary with inverted expectation)
 HARMLESS = [C('recursive: max_iterations = 12 (harmless)', "max_iterations = 10", "max_iterations = 12", '_strategy_recursive')]
+HARMLESS_EXTRA = {'C16': [C('rel: max_iterations = 12 for both requests (harmless)', "max_iterations = 10", "max_iterations = 12", '_strategy_recursive~rel'),
+                          C('rel: strict strategy locals renamed (harmless)', "    success = final_contrast >= min_contrast\n    return tuned_rgb, success", "    ok = final_contrast >= min_contrast\n    return tuned_rgb, ok", '_strategy_strict~rel')]}
 
 
 def standard_check(pid, args, level, explanation, closure, labels_E, n_quick=300, n_thorough=6000, extra=None):
@@ -113,7 +121,7 @@ def standard_check(pid, args, level, explanation, closure, labels_E, n_quick=300
     ck.explanation = explanation
     prog = Program()
     canaries = CANARIES.get(pid, [])
-    run_A(ck, closure, canaries + HARMLESS, prog)
+    run_A(ck, closure, canaries + HARMLESS + HARMLESS_EXTRA.get(pid, []), prog)
     # the harmless edit must verify: fix up its self-test verdict (absorb_canaries marks 'still verifies' as failure)
     for s in ck.selftest:
         if '(harmless)' in s['name']:
